@@ -147,10 +147,20 @@ def sig_async_diverged_done_chain(v: dict) -> bool:
 
 
 def sig_async_diverged_raise_chain(v: dict) -> bool:
+    """Async, diverged, and the chain contains a macrostep (the log between two consecutive dequeues)
+    in which NOTHING was raised while raised events were still being processed afterwards: that is
+    the round which resets the chain counter."""
+    if v.get("engine") != "async" or not _diverged(v) or sig_async_diverged_done_chain(v):
+        return False
     out = v.get("out") or []
-    raised = sum(1 for e in out if e[0] == "ax" and "raise" in e[1])
-    silent = any(e[0] == "event" for e in out)
-    return v.get("engine") == "async" and _diverged(v) and raised > 0 and silent and not sig_async_diverged_done_chain(v)
+    ev_idx = [i for i, e in enumerate(out) if e[0] == "event"]
+    rounds = [out[a:b] for a, b in zip(ev_idx, ev_idx[1:])]
+    raising = [any(e[0] == "ax" and "raise" in e[1] for e in r) for r in rounds]
+    return any(raising) and any(not x for x in raising[: max(len(raising) - 1, 0)])
+
+
+def sig_async_diverged_after_cut(v: dict) -> bool:
+    return v.get("engine") == "async" and _diverged(v) and _has(v, "cut_raise") and not sig_async_diverged_done_chain(v)
 
 
 def sig_async_cut_with_backlog(v: dict) -> bool:
@@ -162,6 +172,7 @@ SIGNATURES: Dict[str, Callable[[dict], bool]] = {
     "async_diverged_done_chain": sig_async_diverged_done_chain,
     "async_diverged_raise_chain": sig_async_diverged_raise_chain,
     "async_cut_with_backlog": sig_async_cut_with_backlog,
+    "async_diverged_after_cut": sig_async_diverged_after_cut,
     "stale_done_event": sig_stale_done_event,
     "start_step": sig_start_step,
     "chain_was_cut": sig_chain_was_cut,
